@@ -440,8 +440,16 @@ class Formatter:
         parent = d.scope_stack[-1]
 
         if not isinstance(parent, Proto):
-            # Member of Non-Proto scopes: message, enum etc.
-            return definition_name
+            if not isinstance(d, (Message, Enum)):
+                # Member of Non-Proto scopes: message field, enum field etc.
+                return definition_name
+            # Messages and enums nested in messages are declared at the top level
+            # of the generated module (package), so they are members of the
+            # imported proto as well.
+            protos = [scope for scope in d.scope_stack if isinstance(scope, Proto)]
+            if not protos:
+                return definition_name
+            parent = protos[-1]
 
         if not self.support_import_as_member():
             return definition_name
